@@ -7,16 +7,19 @@ from gv.model import dbutil, files, grammar as G
 
 ID = "C01"
 RULE = (
-    "One part; shards = dialect (48) x file shape (6). Per shard: (line count n, checklines) from 5 pairs (quick: "
-    "(1,0),(2,1),(4,2),(4,10),(6,0)) / 24 pairs (thorough: n in {1,2,4,6} x checklines in {0,1,2,n-1,n,n+1,10}, plus (12,10)) x "
-    "database kind {:memory:, file, file closed and reopened} x merge_strategy (quick: error, merge, create_unique; thorough: all 5) x "
-    "sort_attribute_values (quick: False, True-with-unsorted-input; thorough: False, True, True-with-unsorted-input). Every execution "
-    "imports a freshly written file (path input, keep_order=True) with the real create_db. all_features() is compared line by line with "
-    "the generator's expectation: feature count, 8 columns, extra columns, ordered attributes, byte-identical print (for unsorted input "
-    "only the first 8 printed columns); printing must change neither the feature nor the database dialect; for 'reopen' the same checks "
-    "are repeated on the reopened FeatureDB and the canonical content must be unchanged; except for unsorted input the printed features "
-    "are re-imported and must give equal features+relations and an equal dialect. Non-trivial = the file has more lines than the "
-    "dialect-peek window (n > checklines+1), or a non-default dialect dimension, or the database is reopened from disk."
+    "One part; shards = dialect (48) x file shape (6: same, late, flags, escapes, dots_extras, parent). Per shard: (line count n, "
+    "checklines) from 5 pairs (quick: (1,0),(2,1),(4,2),(4,10),(6,0)) / 24 pairs (thorough: n in {1,2,4,6} x checklines in "
+    "{0,1,2,n-1,n,n+1,10}, plus (12,10)) x database kind {:memory:, file, file closed and reopened} x merge_strategy (quick: error, "
+    "merge, create_unique; thorough: all 5) x sort_attribute_values (quick: False, True-with-unsorted-input; thorough: False, True, "
+    "True-with-unsorted-input). Every execution imports a freshly written file (path input, keep_order=True) with the real create_db. "
+    "all_features() is compared line by line with the generator's expectation: feature count, 8 columns, extra columns, ordered "
+    "attributes, byte-identical print (for unsorted input only the first 8 printed columns); printing must change neither the feature "
+    "nor the database dialect; while one all_features() iteration is open, a second complete all_features() iteration and a look-up "
+    "db[id] on the same object must give the expected ids (nested), and two all_features() results consumed in lockstep (zip) must "
+    "agree; for 'reopen' the same checks are repeated on the reopened FeatureDB and the canonical content must be unchanged; except for "
+    "unsorted input the printed features are re-imported and must give equal features+relations and an equal dialect. Non-trivial = the "
+    "file has more lines than the dialect-peek window (n > checklines+1), or a non-default dialect dimension, or the database is "
+    "reopened from disk."
 )
 ASSUMPTIONS = [
     "files satisfy the consistency conditions (a)/(b) of DESIGN section 2 (every line exhibits the dialect; keys appear in first-seen order)",
